@@ -317,18 +317,32 @@ def run_program(res, case):
                 if op == "div" and lb == -INF:
                     continue
                 if op == "sub" and la < lb:
-                    # documented to fall back to plain floats; judged only if representable
-                    if not (_representable(la) and _representable(lb)):
-                        continue
+                    # a negative difference is not a weight: the result is a plain float.  It is judged for operands of
+                    # any magnitude: -(e^lb - e^la) to within (8 + |log of the result|) ulp of the RESULT (turning a
+                    # log-value into a plain value costs |log-value| ulp); -inf where that overflows; never NaN
                     out = a - b
-                    exact = CTX.subtract(d_exp(la), d_exp(lb))
                     if not isinstance(out, float):
                         res.fail(key + ":type", f"a-b with a<b returned {type(out).__name__}")
                         continue
-                    err = ulp_err(out, exact, (math.exp(la), math.exp(lb)))
-                    if err > 8:
-                        res.fail(key + ":precision", f"LogRepFloat({la!r})-LogRepFloat({lb!r}) plain = {out!r}, "
-                                 f"error {err:.3g} ulp", la=la, lb=lb)
+                    if math.isnan(out):
+                        res.fail(key + ":negative-difference:nan", f"LogRepFloat(log_val={la!r}) - LogRepFloat(log_val="
+                                 f"{lb!r}) = nan (exact value -exp({float(ref_log_diff_exp(lb, la))!r}))", la=la, lb=lb)
+                        continue
+                    log_mag = ref_log_diff_exp(lb, la)          # log of e^lb - e^la, exact reference
+                    if abs(log_mag - D("709.782712893384")) < D("1e-6"):
+                        continue                                  # within rounding of the overflow threshold
+                    if log_mag > D("709.782712893384"):
+                        if out != -INF:
+                            res.fail(key + ":negative-difference:overflow", f"difference of magnitude exp({float(log_mag)!r}) "
+                                     f"returned {out!r}, not -inf", la=la, lb=lb)
+                        continue
+                    if log_mag < D(-700):
+                        continue                                  # sub-normal range: not judged
+                    exact = -d_exp(log_mag)
+                    err = ulp_err(out, exact)
+                    if err > 8 + abs(float(log_mag)):
+                        res.fail(key + ":negative-difference:precision", f"LogRepFloat(log_val={la!r}) - LogRepFloat(log_val="
+                                 f"{lb!r}) = {out!r}, error {err:.3g} ulp of the result", la=la, lb=lb)
                     continue
                 out = {"add": lambda: a + b, "sub": lambda: a - b, "mul": lambda: a * b,
                        "div": lambda: a / b}[op]()
